@@ -28,6 +28,16 @@ type c07Spec struct {
 	NOps   int    `json:"nops"`
 	Short  []int  `json:"short_ms"` // per context: survey time in ms, 0 = one hour (never expires), -1 = option value 0 (no limit)
 	Tr     string `json:"tr,omitempty"`
+	// retime / script-retime: the SurveyTime option is changed while a survey is outstanding
+	Retime  bool   `json:"retime,omitempty"`
+	T1      int    `json:"t1_ms,omitempty"`   // survey time of the running survey in ms, 0 = one hour
+	New     int    `json:"new_ms,omitempty"`  // value set mid-survey in ms, -1 = option value 0 (no limit), 3600000 = one hour
+	Via     string `json:"via,omitempty"`     // self | socket | other: the object whose option is changed
+	Variant string `json:"variant,omitempty"` // parked | parked-first | late
+	// bcast: concurrent Sends with several respondents connected
+	NSend int    `json:"nsend,omitempty"`
+	Churn string `json:"churn,omitempty"` // "" | add | drop | both: connections joining/leaving meanwhile
+	Raw   bool   `json:"raw,omitempty"`
 }
 
 func TestMain(m *testing.M) { hx.Main(m) }
@@ -69,9 +79,59 @@ func TestC07(t *testing.T) {
 	for i := 0; i < r.Pick(24, 600); i++ {
 		cases = append(cases, mon.CaseSpec{Name: "openctx", Spec: c07Spec{Mode: "openctx", NCtx: 1 + i%2, NOps: i / 2}})
 	}
+	// ---- the SurveyTime option changed while a survey is outstanding ----
+	for i := 0; i < r.Pick(64, 1600); i++ {
+		sp := c07Spec{Mode: "retime", NCtx: 1 + rnd.Intn(2), NPipes: 1 + rnd.Intn(2), NOps: i, T1: 40 + rnd.Intn(61), Via: "self"}
+		switch i % 8 {
+		case 0, 1, 7:
+			sp.New = 3600000 // raised (for the next, longer survey)
+		case 2:
+			sp.New = 15 * sp.T1 // raised, finite
+		case 3:
+			sp.New = 5 + sp.T1/4 // lowered
+		case 4:
+			sp.New = -1 // no limit
+		case 5:
+			sp.New = sp.T1 // set again to the same value
+		case 6:
+			sp.T1, sp.New = 0, 20+rnd.Intn(31) // a long survey; the option is lowered for the next one
+		}
+		sp.Variant = []string{"parked", "late", "parked-first"}[rnd.Intn(3)]
+		if (i/8)%4 == 3 {
+			sp.Via = []string{"socket", "other"}[rnd.Intn(2)]
+		}
+		cases = append(cases, mon.CaseSpec{Name: "retime", Spec: sp})
+	}
+	for i := 0; i < r.Pick(60, 1500); i++ {
+		sp := c07Spec{Mode: "script", Retime: true, NCtx: 1 + rnd.Intn(3), NPipes: 1 + rnd.Intn(3), NOps: 12 + rnd.Intn(20)}
+		for j := 0; j < sp.NCtx; j++ {
+			ms := 0
+			if rnd.Intn(2) == 0 {
+				ms = 50 + rnd.Intn(151)
+			}
+			sp.Short = append(sp.Short, ms)
+		}
+		cases = append(cases, mon.CaseSpec{Name: "script-retime", Spec: sp})
+	}
+	// ---- concurrent Sends (contexts / goroutines / raw) with several respondents connected ----
+	for i := 0; i < r.Pick(72, 2000); i++ {
+		sp := c07Spec{Mode: "bcast", NSend: 2 + rnd.Intn(3), NPipes: 2 + rnd.Intn(5), NOps: 6 + rnd.Intn(19)}
+		sp.NCtx = 1 + rnd.Intn(sp.NSend) // fewer contexts than senders: goroutines share a context
+		if i%6 == 5 {
+			sp.Raw, sp.NCtx = true, 1
+		}
+		if i%4 == 3 {
+			sp.Churn = []string{"add", "drop", "both"}[rnd.Intn(3)]
+		}
+		cases = append(cases, mon.CaseSpec{Name: "concurrent-broadcast", Spec: sp})
+	}
 	r.Run(cases, func(c *mon.Case) {
 		sp := c.Spec.(c07Spec)
 		switch sp.Mode {
+		case "retime":
+			c07Retime(c, sp)
+		case "bcast":
+			c07Bcast(c, sp)
 		case "openctx":
 			c07OpenCtx(c, sp)
 		case "rawq":
@@ -104,7 +164,8 @@ type sctx struct {
 	k       int
 	cur     uint32 // id of the survey the model says is current (0: none / known expired)
 	t0      time.Duration
-	stime   time.Duration
+	stime   time.Duration // survey time of the running (or last) survey
+	next    time.Duration // script-retime: what the option says now, i.e. the next survey's time
 	oldIDs  []uint32
 	correct []int // serials injected for cur and processed, not yet delivered
 	closed  bool
@@ -123,6 +184,7 @@ type script struct {
 	nExpiry   int
 	nAfter    int
 	nSuper    int
+	nRetime   int
 }
 
 func (s *script) note(f string, a ...interface{}) { s.c.Logf(f, a...) }
@@ -178,6 +240,9 @@ func (s *script) send(i int) bool {
 		cx.oldIDs = append(cx.oldIDs, cx.cur)
 	}
 	cx.cur, cx.correct = 0, nil
+	if s.sp.Retime {
+		cx.stime = cx.next // the option value in force when the survey is sent
+	}
 	live := s.live()
 	body := rig.ReqBody(i, k)
 	call := mon.Go("Send", func() (interface{}, error) { return nil, rig.Ctxs[i].Send(rig.ReqBody(i, k)) })
@@ -417,6 +482,7 @@ func c07Script(c *mon.Case, sp c07Spec) {
 		if err := rig.Ctxs[i].SetOption(mangos.OptionSurveyTime, set); err != nil {
 			panic(err)
 		}
+		cx.next = cx.stime
 		s.st = append(s.st, cx)
 	}
 	rnd := c.Rand
@@ -436,6 +502,36 @@ func c07Script(c *mon.Case, sp c07Spec) {
 		}
 		p := live[rnd.Intn(len(live))]
 		hasCur := cx.cur != 0 && cx.cur != 0xffffffff
+		if sp.Retime && !cx.closed && rnd.Intn(5) == 0 {
+			// the option is changed, typically with a survey outstanding: it is the next survey's
+			// time; the running survey keeps the time it was sent with (cx.stime)
+			var nv time.Duration
+			switch rnd.Intn(5) {
+			case 0, 1:
+				nv = time.Hour
+			case 2:
+				nv = 0
+			case 3:
+				nv = time.Duration(50+rnd.Intn(151)) * time.Millisecond
+			default:
+				nv = time.Duration(10+rnd.Intn(20)) * time.Millisecond
+			}
+			if err := rig.Ctxs[i].SetOption(mangos.OptionSurveyTime, nv); err != nil {
+				c.Violate("surveyor/option-rejected", "ctx %d SetOption(SurveyTime, %v): %v", i, nv, err)
+				break
+			}
+			cx.next = nv
+			if nv == 0 {
+				cx.next = time.Hour // no limit
+			}
+			if cx.cur != 0 {
+				c.Count("survey_time_changes_mid_survey", 1)
+				s.nRetime++
+			}
+			s.arrival += "T"
+			s.note("retime ctx=%d -> %v (running survey %08x keeps %v)", i, nv, cx.cur, cx.stime)
+			continue
+		}
 		switch x := rnd.Intn(100); {
 		case cx.closed:
 			if err := rig.Ctxs[i].Send([]byte("x")); err == nil {
